@@ -4,7 +4,11 @@ Every operator is run on generated populations with a scripted, logging replacem
 global `random`; the property statement is evaluated directly on what came back (oracle), and the
 Coq model is evaluated on the same population / parameters / recorded draws (correspondence).
 """
+import glob
 import itertools
+import json
+import math
+import os
 from fractions import Fraction as Fr
 from math import floor, ceil
 
@@ -514,6 +518,52 @@ def main(run):
                 cands = [i for i in cands if rows[i][c] <= best + e]
         return trace, cands
 
+    def fexact(x):
+        try:
+            return Fr(float(x)) == x
+        except OverflowError:
+            return False
+
+    def med_exact(l):
+        """(numpy.median as a fraction, whether numpy computes it without rounding)"""
+        s_ = sorted(l)
+        n_ = len(s_)
+        if n_ % 2:
+            return s_[n_ // 2], True
+        a_, b_ = s_[n_ // 2 - 1], s_[n_ // 2]
+        return (a_ + b_) / 2, fexact(a_ + b_) and fexact((a_ + b_) / 2)
+
+    def lex_arith_exact(kind, w, rows, eps, orders):
+        """every float operation of selEpsilonLexicase / selAutomaticEpsilonLexicase (best -+ epsilon; median, absolute
+        deviations, their median, best -+ MAD) is exact along the published procedure for these case orders.  By
+        induction over the considered cases the float run then coincides with the exact one."""
+        if kind == "plain":
+            return True
+        for order in orders:
+            cands = list(range(len(rows)))
+            for c in order:
+                if len(cands) <= 1:
+                    break
+                vals = [rows[i][c] for i in cands]
+                if kind == "eps":
+                    e, ok = Fr(eps), True
+                else:
+                    mdn, ok = med_exact(vals)
+                    devs = [abs(v - mdn) for v in vals]
+                    ok = ok and all(fexact(d) for d in devs)
+                    e, ok2 = med_exact(devs)
+                    ok = ok and ok2
+                best = max(vals) if w[c] > 0 else min(vals)
+                bound = best - e if w[c] > 0 else best + e
+                if not ok or not fexact(bound):
+                    return False
+                cands = [i for i in cands if (rows[i][c] >= bound if w[c] > 0 else rows[i][c] <= bound)]
+        return True
+
+    def coarse(rows, eps):
+        vs = [v for r in rows for v in r] + ([Fr(eps)] if eps is not None else [])
+        return all(v.denominator <= 1024 and abs(v) < 2 ** 20 for v in vs)
+
     def do_lex(kind, w, rows, sizes, k, eps=None, inscope=True, **px):
         pop = build(w, rows, sizes)
         snap = snapshot(pop)
@@ -527,6 +577,14 @@ def main(run):
         case = base_case(op, w, rows, sizes, k=k, draws=jlog(log), observed=uids(out, pop))
         if eps is not None:
             case["epsilon"] = str(eps)
+        if kind != "plain" and rows and not coarse(rows, eps):
+            # near-tie values: the epsilon variants subtract / average floats; keep only runs whose arithmetic is exact
+            m_ = len(w)
+            shaped = len(log) % 2 == 0 and all(log[2 * t][0] == "shuffle" and sorted(log[2 * t][1]) == list(range(m_))
+                                               for t in range(len(log) // 2))
+            if not shaped or not lex_arith_exact(kind, w, rows, eps, [log[2 * t][1] for t in range(len(log) // 2)]):
+                run.extra_cov["lexicase_inexact_skipped"] = run.extra_cov.get("lexicase_inexact_skipped", 0) + 1
+                return
         if inscope:
             idx = common(case, pop, snap, out, k)
             if idx is not None:
@@ -676,6 +734,103 @@ def main(run):
             for p2 in ([0, 1, 2, 3], [2, 0, 3, 1]) if not T else itertools.permutations(range(4)):
                 for u in (Fr(1, 2), Fr(5, 8)):
                     do_dcd([1, -1], [list(r) for r in rows], [0] * 4, cds, 4, pscript=[list(p1), list(p2)], uscript=[u] * 4)
+
+    # ---- near ties: values one ulp / 2**-40 relative / 1e-12 absolute apart, magnitudes 1e-6, 1, 1e6 ----
+    # (order-based operators only: no sums are formed, every value is an exactly representable float and the model
+    #  compares the exact rationals; the epsilon variants are kept when their few subtractions/averages are exact)
+    def near_variants(b):
+        return [b, math.nextafter(b, math.inf), math.nextafter(b, -math.inf), b * (1 + 2.0 ** -40), b * (1 - 2.0 ** -40),
+                b + 1e-12, b - 1e-12]
+
+    def near_pop(n, m, mag=None, w=None):
+        mag = mag if mag is not None else rng.choice([1e-6, 1.0, 1.0, 1e6])
+        w = w or [rng.choice([1, -1]) * rng.choice([1, 1, 2, Fr(1, 2)]) for _ in range(m)]
+        bases = [mag * rng.choice([1.0, 3.0, 7.0]) for _ in range(m)]
+        rows = []
+        for _ in range(n):
+            r = []
+            for c in range(m):
+                if rng.random() < 0.85:
+                    r.append(Fr(rng.choice(near_variants(bases[c]))))
+                else:
+                    r.append(Fr(bases[c] * rng.choice([0.5, 2.0])))
+            rows.append(r)
+        return w, rows, [rng.randint(0, 3) for _ in range(n)]
+
+    def tiny_eps(rows):
+        b = float(max(abs(v) for r in rows for v in r))
+        return Fr(rng.choice([0.0, b * 2.0 ** -41, b * 2.0 ** -39, math.ulp(b), 2 * math.ulp(b), 1e-12, b * 2.0 ** -30]))
+
+    def near_tie_part(n_rounds, lex_exhaustive):
+        # exhaustive: two/three individuals, two cases, every case order and every final choice
+        for mag in (1.0, 1e-6, 1e6):
+            a, b = 3.0 * mag, 7.0 * mag
+            opts0 = [a, math.nextafter(a, math.inf), a * (1 + 2.0 ** -40), a + 1e-12]
+            opts1 = [b, math.nextafter(b, -math.inf)]
+            inds_ = [[Fr(x), Fr(y)] for x in opts0 for y in opts1]
+            pops = [list(p_) for p_ in itertools.combinations(inds_, 2)]
+            if lex_exhaustive:
+                pops += [list(p_) for p_ in itertools.combinations(inds_, 3)][::3]
+            for rows in pops:
+                n = len(rows)
+                for w in ([1, -1], [-1, 1], [1, 1]):
+                    for perm in ([0, 1], [1, 0]):
+                        for ch in range(n):
+                            do_lex("plain", w, rows, [0] * n, 1, pscript=[perm], iscript=[ch])
+                            if mag == 1.0 or lex_exhaustive:
+                                do_lex("eps", w, rows, [0] * n, 1, eps=Fr(0), pscript=[perm], iscript=[ch])
+                                do_lex("eps", w, rows, [0] * n, 1, eps=Fr(a * 2.0 ** -41), pscript=[perm], iscript=[ch])
+                                do_lex("auto", w, rows, [0] * n, 1, pscript=[perm], iscript=[ch])
+                    for k in (1, n):
+                        do_best(w, rows, [0] * n, k)
+                        do_best(w, rows, [0] * n, k, worst=True)
+                    for script in itertools.product(range(n), repeat=2):
+                        do_tourn(w, rows, [0] * n, 1, 2, iscript=list(script))
+        # random near-tie populations through every order-based operator
+        for _ in range(n_rounds):
+            n, m = rng.randint(2, 8), rng.randint(1, 4)
+            w, rows, sizes = near_pop(n, m)
+            k = rng.choice([1, 2, n, n + 1])
+            do_best(w, rows, sizes, k)
+            do_best(w, rows, sizes, rng.randint(1, n), worst=True)
+            do_tourn(w, rows, sizes, k, rng.choice([2, 3, 4]))
+            do_double(w, rows, sizes, min(k, 3), rng.choice([2, 3]), rng.choice([Fr(1), Fr(3, 2), Fr(2)]), rng.random() < 0.5,
+                      ubits=2)
+            do_lex("plain", w, rows, sizes, min(k, 4))
+            do_lex("eps", w, rows, sizes, min(k, 4), eps=Fr(0))
+            do_lex("eps", w, rows, sizes, min(k, 4), eps=tiny_eps(rows))
+            do_lex("auto", w, rows, sizes, min(k, 4))
+            n4 = rng.choice([4, 8])
+            w, rows, sizes = near_pop(n4, rng.randint(1, 3), w=None)
+            w = [1 if x > 0 else -1 for x in w]
+            if rng.random() < 0.6:
+                pop0 = build(w, rows, [0] * n4)
+                emomod.assignCrowdingDist(pop0)
+                cds = [x.fitness.crowding_dist for x in pop0]
+            else:
+                cds = [rng.choice([0.5, math.nextafter(0.5, 1.0), float("inf")]) for _ in range(n4)]
+            do_dcd(w, rows, [0] * n4, cds, 4 * rng.randint(1, n4 // 4), ubits=2)
+
+    near_tie_part(run.scale(120, 1500), T)
+
+    # ---- corpus: past misses, replayed first-class on every run (corpus/C06_*.json) ----
+    for path in sorted(glob.glob(os.path.join(os.path.dirname(os.path.dirname(os.path.abspath(__file__))), "corpus", "C06_*.json"))):
+        ent = json.load(open(path))
+        cw = [Fr(float.fromhex(x)) for x in ent["weights_hex"]]
+        crows = [[Fr(float.fromhex(v)) for v in r] for r in ent["values_hex"]]
+        cn, cm = len(crows), len(cw)
+        ckind = {"selLexicase": "plain", "selEpsilonLexicase": "eps", "selAutomaticEpsilonLexicase": "auto"}.get(ent["op"])
+        if ckind is not None:
+            ceps = Fr(float.fromhex(ent["epsilon_hex"])) if "epsilon_hex" in ent else None
+            for perm in itertools.permutations(range(cm)):
+                for ch in range(cn):
+                    do_lex(ckind, cw, crows, [0] * cn, 1, eps=ceps, pscript=[list(perm)], iscript=[ch])
+        elif ent["op"] in ("selBest", "selWorst"):
+            for k in range(0, cn + 1):
+                do_best(cw, crows, [0] * cn, k, worst=ent["op"] == "selWorst")
+        elif ent["op"] == "selTournament":
+            for script in itertools.product(range(cn), repeat=2):
+                do_tourn(cw, crows, [0] * cn, 1, 2, iscript=list(script))
 
     # ---- known finding witness (replayed on every run) ----
     do_lex("eps", [1], [[Fr(1)], [Fr(3, 4)]], [0, 0], 1, eps=Fr(1, 2), pscript=[[0]], iscript=[1])
